@@ -55,6 +55,14 @@ class Canon(ast.NodeTransformer):
 
     def visit_Call(self, node):
         self.generic_visit(node)
+        f = node.func
+        # a.dot(b) -> a @ b,  x.transpose() -> x.T   (methods of arrays, sparse matrices and linear operators alike)
+        # (not on `self`: a class of the repository may define dot / transpose itself, differently from @ / .T)
+        if isinstance(f, ast.Attribute) and not node.keywords and not (isinstance(f.value, ast.Name) and f.value.id in ("np", "_np", "numpy", "self")):
+            if f.attr == "dot" and len(node.args) == 1 and not isinstance(node.args[0], ast.Starred):
+                return ast.copy_location(ast.BinOp(left=f.value, op=ast.MatMult(), right=node.args[0]), node)
+            if f.attr == "transpose" and not node.args:
+                return ast.copy_location(ast.Attribute(value=f.value, attr="T", ctx=ast.Load()), node)
         # f(a, y=b) -> f(a, b) for a plain function f of the same module whose next positional parameters are the keywords
         if isinstance(node.func, ast.Name) and node.func.id in self.functions and node.keywords and all(k.arg for k in node.keywords) \
                 and not any(isinstance(a, ast.Starred) for a in node.args):
